@@ -191,7 +191,9 @@ inline void nearestChecks(vh::Ctx& c, const Shape& s, vh::Rng& r, long idx, int 
                 LD band = (s.kind == ELLIPSOID ? 1e-9L : 1e-9L * sc);
                 if (std::fabs(iv) > band) { judged = true; truth = iv > 0; }
             }
-            if (judged) c.require("inside@" + sh + ":nearest:" + Q.region, inA == truth && inB == truth, W(p, truth ? "query is inside, flag says outside" : "query is outside, flag says inside"));
+            std::string ikey = Q.region;
+            if (s.kind == MESH) { BfNearest bn = bfNearest(s.mesh, V3(Q.x)); ikey = triFeature(bn.p, s.mesh.vert(bn.face, 0), s.mesh.vert(bn.face, 1), s.mesh.vert(bn.face, 2)); }
+            if (judged) c.require("inside@" + sh + ":nearest:" + ikey, inA == truth && inB == truth, W(p, truth ? "query is inside, flag says outside" : "query is outside, flag says inside"));
             else c.obs("inside-flag-on-boundary-not-judged");
         }
         // normal: unit, outward normal of the surface at p
